@@ -24,6 +24,7 @@ type behaviourStep struct {
 	Post  []int          `json:"post"`
 	VPost map[string]any `json:"vpost"`
 	Used  int            `json:"used"`
+	Alg   string         `json:"alg"`
 }
 
 type replayResult struct {
@@ -167,6 +168,8 @@ func replay(args []string) error {
 				if err == nil && !sameJSON(ev.Post, st.Post) {
 					fail(i, "unread bytes differ after Reset")
 				}
+			case "regremove", "regrestore":
+				ev, err = m.Exec(vh.Op{Op: st.Op, Alg: st.Alg})
 			case "write":
 				ev, err = m.Exec(vh.Op{Op: "write", B: "b", Bytes: st.Bytes})
 				if err == nil && !sameJSON(ev.Post, st.Post) {
@@ -181,6 +184,10 @@ func replay(args []string) error {
 			if res.Verdict != "ok" {
 				break
 			}
+		}
+		// whatever the behaviour removed from the registry is put back before the next one
+		for _, a := range []string{"CRC16", "CRC32", "SSE_BIN", "SZSE_BIN"} {
+			m.Exec(vh.Op{Op: "regrestore", Alg: a})
 		}
 		if err := enc.Encode(res); err != nil {
 			return err
